@@ -467,6 +467,44 @@ impl World {
                 ev.insert("d".into(), json!(d));
                 self.clock.advance(Duration::from_secs(d));
             }
+            "IterSplit" => {
+                // an iterator that lives across a clock step: `take` items, the clock moves by
+                // d, the rest. Logged as an Advance event carrying what was yielded before
+                // (head, at the event's reading) and after (tail, d later).
+                let d = op["d"].as_u64().unwrap();
+                let take = op["take"].as_u64().unwrap() as usize;
+                let clock = self.clock.clone();
+                let (mut head, mut tail): (Vec<(u32, u32)>, Vec<(u32, u32)>) = (Vec::new(), Vec::new());
+                match self.cache.as_mut().unwrap() {
+                    AnyCache::U(c) => {
+                        let mut it = c.iter();
+                        for _ in 0..take {
+                            if let Some((k, v)) = it.next() {
+                                head.push((k.id, v.id));
+                            }
+                        }
+                        clock.advance(Duration::from_secs(d));
+                        tail.extend(it.map(|(k, v)| (k.id, v.id)));
+                    }
+                    AnyCache::S(c) => {
+                        let mut it = c.iter();
+                        for _ in 0..take {
+                            if let Some(e) = it.next() {
+                                head.push((e.key().id, e.value().id));
+                            }
+                        }
+                        clock.advance(Duration::from_secs(d));
+                        tail.extend(it.map(|e| (e.key().id, e.value().id)));
+                    }
+                }
+                head.sort();
+                tail.sort();
+                ev.insert("ev".into(), json!("Advance"));
+                ev.insert("d".into(), json!(d));
+                let js = |v: &Vec<(u32, u32)>| Value::Array(v.iter().map(|(k, v)| json!({"k": k, "v": v})).collect());
+                ev.insert("head".into(), js(&head));
+                ev.insert("tail".into(), js(&tail));
+            }
             "Sync" => match self.cache.as_mut().unwrap() {
                 AnyCache::U(_) => {}
                 AnyCache::S(c) => c.sync(),
